@@ -189,6 +189,50 @@ def replay_encode(ctx, suite, c, ob, witness, bv_widths):
     return False
 
 
+def _norm(text):
+    """eq(a, b) and a == b are the same clause (eq() tolerates None operands)"""
+    import re
+    t = re.sub(r"\s+", " ", text.strip())
+    m = re.fullmatch(r"eq\((.*)\)", t)
+    if m:
+        depth, parts, cur = 0, [], ""
+        for ch in m.group(1):
+            if ch == "," and depth == 0:
+                parts.append(cur.strip())
+                cur = ""
+                continue
+            depth += ch in "([{"
+            depth -= ch in ")]}"
+            cur += ch
+        parts.append(cur.strip())
+        if len(parts) == 2:
+            return "%s == %s" % tuple(parts)
+    return t
+
+
+def contract_reuse_obligation(ctx):
+    """The loop is verified against a contract of TaxonNamespace.taxon_bitmask that is marked ASSUMED in THIS suite; it is not a new
+    assumption: contracts/C10.py proves that very clause from the real body (under the namespace invariant NS, which C10 shows every
+    mutator preserves).  The obligation checks that the two texts are the same clause and that the proving side asks for no more than
+    NS and membership."""
+    import time
+    from contracts import C10
+    t0 = time.time()
+    mine = [c for c in ASSUMED if c.name == "TaxonNamespace.taxon_bitmask"][0]
+    theirs = [c for c in C10.CONTRACTS if c.name == "TaxonNamespace.taxon_bitmask"][0]
+    a = dict((k, _norm(v)) for k, v in mine.ensures_items())
+    b = dict((k, _norm(v)) for k, v in theirs.ensures_items())
+    same = all(k in b and b[k] == v for k, v in a.items())
+    pre_ok = _norm(theirs.requires) == _norm(C10.NS + " and " + mine.requires)
+    name = "TaxonNamespace.taxon_bitmask.assumed-clause-is-the-one-proved-in-C10"
+    ok = same and pre_ok and not theirs.assumed
+    ctx.obligation(name, "proved" if ok else "refuted", "ast-scan", time.time() - t0, mine.target,
+                   detail=None if ok else "here: %r requires %r; C10: %r requires ...%r" % (a, mine.requires, b, theirs.requires[-80:]))
+    if not ok:
+        ctx.fail(name, dict(key="contract-reuse:taxon_bitmask", here=a, proved=b), detail="the clause assumed for taxon_bitmask is no longer the clause C10 proves",
+                 kind="T1", no_input=True)
+
+
 def t1(ctx):
     ctx.assume("C01/encode loop: ASSUMED traversal (postorder_edge_iter yields g_post: every edge once, children before parents -- C15) and well-formedness (C03/C11); "
                "restructuring calls before the loop and the per-edge compile phase after it are outside this obligation; the induction from the local equations "
@@ -197,6 +241,7 @@ def t1(ctx):
         verify_contract(ctx, SUITE, c, sentinels=False, replay=replay_encode)
     from contracts import _wf
     _wf.validate(ctx)
+    contract_reuse_obligation(ctx)
     from dpvc import lean
     hyp = "the labelling satisfies the local equations on every visited edge: Tree.encode_bipartitions.loop0.after[local-equations] (z3)"
     lean.check_lemma(ctx, "Clades.lean", ["local_equations_unique", "encodings_agree", "leaves_subset_root"],
